@@ -177,6 +177,37 @@ def cases(draw):
             ["uncached", "h:" + (b"racing user edit " + bytes([48 + draw(st.integers(0, 9))])).hex()]]
         case["race"] = {"skip": draw(st.sampled_from([0, 0, 0, 1, 2])), "pick": draw(st.integers(0, 5)),
                         "c": len(case["palette"]) - 1}
+    elif target_kind == "tree" and draw(st.sampled_from([False] * 5 + [True])):
+        # an unstageable workspace (dangling symlink) whose directory holds several target files:
+        # some siblings deleted (they are linked as "added" whatever the processing order), uncached
+        # edits on several of the others
+        names = sorted(draw(st.sets(gen.names(), min_size=3, max_size=6)))
+        roles = [draw(st.sampled_from(["delete", "delete", "modify", "modify", "keep"])) for _ in names]
+        if "delete" not in roles:
+            roles[draw(st.integers(0, len(names) - 1))] = "delete"
+        if "modify" not in roles:
+            free = [i for i, r in enumerate(roles) if r != "delete"] or [0]
+            roles[free[draw(st.integers(0, len(free) - 1))]] = "modify"
+        flat = {n: draw(_content()) for n in names}
+        sub = draw(st.sampled_from([None, None, "sub", "data"]))
+        case["target"] = {sub: flat, "top": draw(_content())} if sub and sub not in flat else flat
+        case["prior"] = "write"
+        case["root_file"] = None
+        case["legacy_hashed"] = False
+        case["drop"] = []
+        case["palette"] = case["palette"][:5] + [["uncached", "h:" + b"sibling edit one".hex()],
+                                                 ["uncached", "h:" + b"sibling edit two".hex()]]
+        k = len(case["palette"]) - 2
+        # indices refer to the sorted file list of the workspace: "sub/<name>" sorts as a block
+        base = 0
+        if case["target"] is not flat:
+            allkeys = sorted([f"{sub}/{n}" for n in names] + ["top"])
+            base = allkeys.index(f"{sub}/{names[0]}")
+        edits = [{"op": "modify", "i": base + i, "c": k + (i % 2)} for i, r in enumerate(roles) if r == "modify"]
+        edits += [{"op": "delete", "i": base + i} for i, r in reversed(list(enumerate(roles))) if r == "delete"]
+        case["edits"] = edits
+        case["dangling"] = [{"d": 0, "name": draw(st.sampled_from(["broken", "~link", "zz"]))}]
+        case["shape"] = "siblings-behind-dangling-symlink"
     return case
 
 
@@ -633,6 +664,8 @@ def run_checkout_case(case, ctx):  # noqa: C901, PLR0912, PLR0915
         labels.add("relink" if case["relink"] else "no-relink")
         labels.add("prompt=" + case["prompt"])
         labels.add("target=" + case["target_kind"])
+        if case.get("shape"):
+            labels.add("shape=" + case["shape"])
         labels.add("outcome=" + outcome)
         if prompts:
             labels.add("prompt-called")
